@@ -180,7 +180,7 @@ where
               &q == p && hash_of(&q) == hash_of(p) && q.cmp(p) == std::cmp::Ordering::Equal, &null, &null);
     // value-level invariants: evaluated by TLC, either already (known) or on the event
     if !known.iter().any(|k| **k == obs["v"]) {
-        ctx.event(json!({"ev": "value", "inst": inst, "origin": origin, "generic": !inst.starts_with("Test"), "v": obs["v"], "str": obs["str"]}));
+        ctx.event(for_tlc(&json!({"ev": "value", "inst": inst, "origin": origin, "generic": !inst.starts_with("Test"), "v": obs["v"], "str": obs["str"]})));
         ctx.count("values_to_trace");
     } else {
         ctx.count("values_known_to_tlc");
@@ -752,7 +752,7 @@ pub fn apply_qop(q: &mut purl::Qualifiers, op: &Value) -> Value {
                 if a == b && b == c {
                     json!({"ok": true, "occ": true, "v": cps(&a)})
                 } else {
-                    json!({"ok": true, "occ": true, "v": "get/get_mut/into_mut disagree"})
+                    json!({"ok": true, "occ": true, "disagree": "get/get_mut/into_mut"})
                 }
             },
             Ok(Entry::Vacant(_)) => json!({"ok": true, "occ": false}),
@@ -867,7 +867,7 @@ pub fn apply_qop(q: &mut purl::Qualifiers, op: &Value) -> Value {
             let r = q.get_typed::<RepositoryUrl>();
             let c = q.contains_typed::<RepositoryUrl>();
             if c != r.is_some() {
-                json!("contains_typed and get_typed disagree")
+                json!({"disagree": "contains_typed and get_typed"})
             } else {
                 opt_json(r.as_deref())
             }
@@ -888,7 +888,7 @@ pub fn apply_qop(q: &mut purl::Qualifiers, op: &Value) -> Value {
                         _ => {
                             let r = q.get_typed::<$t>();
                             if q.contains_typed::<$t>() != r.is_some() {
-                                json!("contains_typed and get_typed disagree")
+                                json!({"disagree": "contains_typed and get_typed"})
                             } else {
                                 opt_json(r.as_deref())
                             }
@@ -1107,7 +1107,7 @@ fn ck_entries(ck: &purl::qualifiers::well_known::Checksum) -> Value {
     names.sort();
     let same = names == es.iter().map(|(a, _)| a.clone()).collect::<Vec<_>>();
     if !same {
-        return json!("iter() and algorithms() disagree");
+        return json!([[[], {"disagree": "iter() and algorithms()"}]]);
     }
     Value::Array(es.iter().map(|(a, h)| json!([cps(a), cps(h)])).collect())
 }
@@ -1134,7 +1134,7 @@ pub fn apply_ckop(ck: &mut purl::qualifiers::well_known::Checksum<'static>, op: 
             let r = ck.get_raw(&a);
             let v = ck.get_value(&a).map(|v| v.raw().to_owned());
             if r.map(|x| x.to_owned()) != v {
-                json!("get_raw and get_value disagree")
+                json!({"disagree": "get_raw and get_value"})
             } else {
                 opt_json(r)
             }
